@@ -1,6 +1,8 @@
 use crate::eng::Tier;
 pub mod c01;
 pub mod c02;
+pub mod c03;
+pub mod c04;
 pub mod c05;
 pub mod c07;
 pub mod c08;
@@ -16,6 +18,8 @@ pub fn run(prop: &str, tier: Tier, seed: u64) {
     match prop {
         "C01" => c01::run(tier, seed),
         "C02" => c02::run(tier, seed),
+        "C03" => c03::run(tier, seed),
+        "C04" => c04::run(tier, seed),
         "C05" => c05::run(tier, seed),
         "C07" => c07::run(tier, seed),
         "C08" => c08::run(tier, seed),
